@@ -391,6 +391,10 @@ def run(ctx):
     r5b_builtin_lookup_copies(ctx, sym)
     r1_never_raises(ctx, sym)
     r1c_constants_complete(ctx, sym)
+    from .c19 import binop_cells_callable
+    ctx.rule('R4b', "every cell of VALID_BINOP_TYPES accepts the (left, right) call apply_binary_operation makes "
+                    "(a cell that cannot be called that way turns an ordinary program into a TIFA system error)")
+    binop_cells_callable(ctx, sym, 'R4b')
     r2_idempotent(ctx, sym)
     r3_resolution(ctx, sym)
     r4_builtin_tables(ctx, sym)
